@@ -58,7 +58,7 @@ class Pair:
     dec: object
     stages: list
     encode: callable
-    roundtrip: callable
+    decode: callable  # (z, x) -> y : decoder applied to the latent of x
     decode_latent: callable  # (z, f) -> y
     dec_in_ch: int
     c_doc: int
@@ -79,7 +79,7 @@ def build_pair(name, p, mods=None):
         c = p.get("c", 8)
         enc, dec = M.Bourtsoulatze2019DeepJSCCEncoder(c), M.Bourtsoulatze2019DeepJSCCDecoder(c)
         f, fs = _doc_int(M.Bourtsoulatze2019DeepJSCCEncoder.forward.__doc__, r"H\s*//\s*(\d+)", "Encoder.forward docstring '(B, num_transmitted_filters, H//4, W//4)'")
-        return Pair(name, enc, dec, list(enc.model), enc, lambda x: dec(enc(x)), lambda z, f_: dec(z), c, c, "constructor argument num_transmitted_filters ('Number of filters in the final encoding layer')", f, fs,
+        return Pair(name, enc, dec, list(enc.model), enc, lambda z, x: dec(z), lambda z, f_: dec(z), c, c, "constructor argument num_transmitted_filters ('Number of filters in the final encoding layer')", f, fs,
                     range_doc=(0.0, 1.0, "decoder constructor gives the last layer activate=nn.Sigmoid(); images are normalised to [0,1]"), final_layer=getattr(dec.model[-1], "activate", None))
     if name in ("tung2022_q", "tung2022_q2", "yilmaz2023_noma"):
         T = _m("kaira.models.image.tung2022_deepjscc_q", mods)
@@ -87,7 +87,7 @@ def build_pair(name, p, mods=None):
         if name == "tung2022_q":
             enc, dec = T.Tung2022DeepJSCCQEncoder(N, Mm), T.Tung2022DeepJSCCQDecoder(N, Mm)
             k, fs = _doc_int(T.Tung2022DeepJSCCQ2Encoder.__doc__, r"contains (\d+) strided layers", "Tung2022DeepJSCCQ2Encoder class docstring 'DeepJSCCQ, which contains 4 strided layers'")
-            return Pair(name, enc, dec, list(enc.g_a), enc, lambda x: dec(enc(x)), lambda z, f_: dec(z), Mm, Mm, "constructor argument M ('number of output channels in the last convolutional layer')", None if k is None else 2**k, fs,
+            return Pair(name, enc, dec, list(enc.g_a), enc, lambda z, x: dec(z), lambda z, f_: dec(z), Mm, Mm, "constructor argument M ('number of output channels in the last convolutional layer')", None if k is None else 2**k, fs,
                         note="no output range documented ('The decoded image'); last decoder layer is ResidualBlockUpsample: range clause not applicable")
         if name == "tung2022_q2":
             enc, dec = T.Tung2022DeepJSCCQ2Encoder(N, Mm), T.Tung2022DeepJSCCQ2Decoder(N, Mm)
@@ -105,14 +105,14 @@ def build_pair(name, p, mods=None):
         def csi(t):
             return t.new_zeros(t.shape[0], 1)
 
-        return Pair(name, enc, dec, list(enc.g_a), lambda x: enc(x, csi(x)), lambda x: dec(enc(x, csi(x)), csi(x)), lambda z, f_: dec(z, csi(z)), Mm, Mm, csrc, f, fs, in_ch=in_ch,
+        return Pair(name, enc, dec, list(enc.g_a), lambda x: enc(x, csi(x)), lambda z, x: dec(z, csi(x)), lambda z, f_: dec(z, csi(z)), Mm, Mm, csrc, f, fs, in_ch=in_ch,
                     note="no output range documented; last decoder layer is an AFModule (mask * x): range clause not applicable")
     if name == "kurka2020":
         K = _m("kaira.models.image.kurka2020_deepjscc_feedback", mods)
         d = p.get("conv_depth", 8)
         model = K.DeepJSCCFeedbackModel(channel_snr=10.0, conv_depth=d, channel_type="awgn", feedback_snr=None, refinement_layer=False, layer_id=0)
         enc, dec = model.encoder, model.decoder
-        return Pair(name, enc, dec, list(enc.layers), enc, lambda x: model(x)["decoded_img"], lambda z, f_: dec(z), 256, d, "constructor argument conv_depth ('Depth of the output convolutional features, which determines the channel bandwidth usage')", None,
+        return Pair(name, enc, dec, list(enc.layers), enc, lambda z, x: model(x)["decoded_img"], lambda z, f_: dec(z), 256, d, "constructor argument conv_depth ('Depth of the output convolutional features, which determines the channel bandwidth usage')", None,
                     "no spatial factor is documented for the Kurka encoder: 2^L read from the module is used", range_doc=(0.0, 1.0, "DeepJSCCFeedbackDecoder.forward docstring: 'Reconstructed image in range [0, 1]'"), final_layer=dec.layers[-1],
                     note="num_filters=256 is hard-coded (width cannot be reduced); decoder(encoder(x)) is composed by the real DeepJSCCFeedbackModel.forward (base layer: zero-pads the latent to 256 channels, real AWGNChannel in between)")
     if name.startswith("yilmaz2024_wz"):
@@ -136,7 +136,7 @@ def build_pair(name, p, mods=None):
             enc, dec = W.Yilmaz2024DeepJSCCWZConditionalEncoder(N, Mm), W.Yilmaz2024DeepJSCCWZConditionalDecoder(N, Mm)
             encode = lambda x: enc(x, x.new_zeros(x.shape), csi(x))  # noqa: E731
         f, fs = _doc_int(type(enc).forward.__doc__, r"H\s*/\s*(\d+)", f"{type(enc).__name__}.forward docstring 'Shape: [B, M, H/16, W/16]'")
-        return Pair(name, enc, dec, list(enc.g_a), encode, lambda x: dec(encode(x), x.new_zeros(x.shape), csi(x)), lambda z, f_: dec(z, side_for(z, f_), csi(z)), Mm, Mm,
+        return Pair(name, enc, dec, list(enc.g_a), encode, lambda z, x: dec(z, x.new_zeros(x.shape), csi(x)), lambda z, f_: dec(z, side_for(z, f_), csi(z)), Mm, Mm,
                     "constructor argument M ('Number of output channels in the final latent representation')", f, fs,
                     note="side information of the input's shape and csi [B,1,1,1] are supplied; no output range documented; last decoder layer is a ResidualBlock: range clause not applicable")
     raise KeyError(name)
@@ -165,8 +165,9 @@ PAIR_WIDTHS = {
 
 
 def parse_cfg(cfg):
-    """'name[k=v,...]|tier' -> (name, params, tier)"""
+    """'name[k=v,...]|tier[|part]' -> (name, params, tier)"""
     head, _, tier = cfg.partition("|")
+    tier = tier.split("|")[0]
     name, _, rest = head.partition("[")
     params = {}
     for kv in rest.rstrip("]").split(","):
@@ -195,6 +196,7 @@ def shape_results(spec, cfg, mods=None, timeout_ms=20000):
     """All C19.shape_<model> clauses for one configuration (also used by the self-test with mutated modules)."""
     t0 = time.time()
     name, params, tier = parse_cfg(cfg)
+    part = cfg.split("|")[2] if cfg.count("|") >= 2 else "all"  # 'pair' | 'dec' | 'all': the two proofs are separate jobs
     torch.manual_seed(0)
     P = build_pair(name, params, mods)
     P.enc.eval()
@@ -215,12 +217,15 @@ def shape_results(spec, cfg, mods=None, timeout_ms=20000):
     )
     if problems:
         return out
+    if part == "dec":
+        out = []
 
     def pre(d):
         return [d["B"] >= 1, d["H"] >= 1, d["W"] >= 1, d["H"] % f == 0, d["W"] % f == 0]
 
     def run(x):
-        return {"latent": P.encode(x), "decoded": P.roundtrip(x)}
+        z = P.encode(x)
+        return {"latent": z, "decoded": P.decode(z, x)}
 
     def c_round(o, d):
         return list(zip(o["decoded"], (d["B"], P.out_ch, d["H"], d["W"]))) + [(len(o["decoded"]), 4)]
@@ -236,16 +241,20 @@ def shape_results(spec, cfg, mods=None, timeout_ms=20000):
     def canary(o, d):
         return [(o["decoded"][2], d["H"] + 1)]
 
-    prob = E3.ShapeProblem(names=("B", "C", "H", "W"), channels={1: P.in_ch}, pre=pre, run=run, clauses={"roundtrip_shape": c_round, "latent_dims": c_latent, "latent_ratio": c_ratio}, canary=canary, nonlinear={"latent_ratio": ("latent",)})
+    prob = E3.ShapeProblem(names=("B", "C", "H", "W"), channels={1: P.in_ch}, pre=pre, run=run, clauses={"roundtrip_shape": c_round, "latent_dims": c_latent, "latent_ratio": c_ratio}, canary=canary, nonlinear={"latent_ratio": ("latent",)}, mkldnn=(tier == "thorough"), max_cases=(200 if tier == "thorough" else 48))
     sizes = THOROUGH_SIZES if tier == "thorough" else QUICK_SIZES
     sizes = [s for s in sizes if s[1] % f == 0 and s[2] % f == 0] or [(1, f, 2 * f), (2, 2 * f, f)]
+    res = []
     try:
-        res = E3.prove_shapes(prob, base, spec.id, timeout_ms=timeout_ms)
+        if part != "dec":
+            res = E3.prove_shapes(prob, base, spec.id, timeout_ms=timeout_ms)
     except Exception as e:  # engine crash
         r = ObResult(ob=f"{spec.id}/symbolic_run", engine="E3", backend="z3", kind="proof", verdict="error", detail=E3.fmt_exc(e), **base)
         return out + [r]
     symfail = [r for r in res if r.ob.endswith("/symbolic_run") and r.verdict == "undecided"]
-    if symfail:
+    if part == "dec":
+        pass
+    elif symfail:
         # forward defeats FakeTensorMode/ShapeEnv (or the case budget): bounded check with the reason recorded
         grid = [(b, h, w) for b in (1, 2, 5) for (h, w) in ((16, 16), (32, 32), (48, 48), (64, 64)) if h % f == 0]
         out += E3.bounded_shapes(prob, grid, base, spec.id, reason=symfail[0].detail)
@@ -266,9 +275,9 @@ def shape_results(spec, cfg, mods=None, timeout_ms=20000):
     def c_dec(o, d):
         return list(zip(o["decoded"], (d["B"], P.out_ch, f * d["h"], f * d["w"]))) + [(len(o["decoded"]), 4)]
 
-    prob_d = E3.ShapeProblem(names=("B", "C", "h", "w"), channels={1: P.dec_in_ch}, pre=pre_d, run=run_d, clauses={"decoder_shape": c_dec}, canary=lambda o, d: [(o["decoded"][2], f * d["h"] + 1)])
+    prob_d = E3.ShapeProblem(names=("B", "C", "h", "w"), channels={1: P.dec_in_ch}, pre=pre_d, run=run_d, clauses={"decoder_shape": c_dec}, canary=lambda o, d: [(o["decoded"][2], f * d["h"] + 1)], mkldnn=(tier == "thorough"), max_cases=(200 if tier == "thorough" else 48))
     try:
-        res_d = E3.prove_shapes(prob_d, base, spec.id, timeout_ms=timeout_ms, label="dec_")
+        res_d = E3.prove_shapes(prob_d, base, spec.id, timeout_ms=timeout_ms, label="dec_") if part != "pair" else []
         if any(r.ob.endswith("symbolic_run") for r in res_d):
             res_d = E3.bounded_shapes(prob_d, [(b, h, w) for b in (1, 2, 5) for h in (1, 2, 3, 4) for w in (1, 4)], base, spec.id, reason=res_d[0].detail)
         out += res_d
@@ -276,7 +285,7 @@ def shape_results(spec, cfg, mods=None, timeout_ms=20000):
         out.append(ObResult(ob=f"{spec.id}/dec_symbolic_run", engine="E3", backend="z3", kind="proof", verdict="error", detail=E3.fmt_exc(e), **base))
 
     # value range
-    if P.range_doc is not None:
+    if P.range_doc is not None and part != "dec":
         lo, hi, src = P.range_doc
         fl = P.final_layer
         ok = isinstance(fl, torch.nn.Sigmoid) and (lo, hi) == (0.0, 1.0)
@@ -289,7 +298,7 @@ def shape_results(spec, cfg, mods=None, timeout_ms=20000):
                 for scale in (1.0, 50.0):
                     torch.manual_seed(n)
                     x = torch.randn(b, P.in_ch, h, w) * scale
-                    y = P.roundtrip(x)
+                    y = P.decode(P.encode(x), x)
                     n += 1
                     mn, mx = float(y.min()), float(y.max())
                     if not (bool(torch.isfinite(y).all()) and mn >= lo and mx <= hi) and bad is None:
@@ -298,12 +307,13 @@ def shape_results(spec, cfg, mods=None, timeout_ms=20000):
         r.detail = f"bounded: {n} random inputs (scales 1 and 50), outputs finite and within [{lo},{hi}]" + (f" | FAILS: {bad}" if bad else "")
         r.wall_s = round(time.time() - tn, 3)
         out.append(r)
-    out[0].wall_s = round(time.time() - t0, 3)
+    if out:
+        out[0].wall_s = round(time.time() - t0, 3)
     return out
 
 
 def _register_shape(model):
-    @obligation(f"C19.shape_{model}", function=PAIR_FUNCS[model], configs=lambda tier, m=model: [f"{m}[{w}]|{tier}" for w in PAIR_WIDTHS[m][tier]], kind="custom", engine="E3")
+    @obligation(f"C19.shape_{model}", function=PAIR_FUNCS[model], configs=lambda tier, m=model: [f"{m}[{w}]|{tier}|{part}" for w in PAIR_WIDTHS[m][tier] for part in ("pair", "dec")], kind="custom", engine="E3")
     def body(spec, cfg, tier, seed):
         return shape_results(spec, cfg)
 
@@ -338,18 +348,20 @@ def _bounded_model(spec, cfg, build_and_run, reason):
 
 
 @obligation("C19.shape_yilmaz2023_noma_model", function=IMG + "yilmaz2023_deepjscc_noma.py:Yilmaz2023DeepJSCCNOMAModel.forward; " + IMG + "yilmaz2023_deepjscc_noma.py:Yilmaz2023DeepJSCCNOMAModel.__init__",
-            configs=lambda tier: [f"noma_model[shared={s}]|{tier}" for s in (0, 1)], kind="custom", engine="E3")
+            configs=lambda tier: [f"noma_model[shared_encoder={s},perfect_sic={c}]|{tier}" for (s, c) in ((0, 0), (1, 0), (0, 1))], kind="custom", engine="E3")
 def noma_model(spec, cfg, tier, seed):
     from kaira.channels import AWGNChannel
     from kaira.constraints import AveragePowerConstraint
     from kaira.models.image.yilmaz2023_deepjscc_noma import Yilmaz2023DeepJSCCNOMAModel
 
     _, p, _ = parse_cfg(cfg)
-    shared = bool(p.get("shared", 0))
+    shared, sic = bool(p.get("shared_encoder", 0)), bool(p.get("perfect_sic", 0))
 
     def go(b, h, w):
-        m = Yilmaz2023DeepJSCCNOMAModel(AWGNChannel(snr_db=10.0), AveragePowerConstraint(1.0), num_devices=2, latent_dim=4, shared_encoder=shared, shared_decoder=shared, use_device_embedding=True, image_shape=(h, w))
-        y = m([torch.rand(b, 3, h, w), torch.rand(b, 3, h, w)], csi=torch.rand(b, 1))
+        # default widths (N=64, latent_dim=16): the wrapper does not forward N / latent_dim to the encoders it builds
+        m = Yilmaz2023DeepJSCCNOMAModel(AWGNChannel(snr_db=10.0), AveragePowerConstraint(1.0), num_devices=2, shared_encoder=shared, use_perfect_sic=sic, use_device_embedding=True, image_shape=(h, w))
+        x = torch.rand(b, 2, 3, h, w) if sic else [torch.rand(b, 3, h, w), torch.rand(b, 3, h, w)]
+        y = m(x, csi=torch.rand(b, 1))
         return tuple(y.shape), (b, 2, 3, h, w)
 
     return _bounded_model(spec, cfg, go, "GuardOnDataDependentSymNode at kaira/constraints/power.py (`if torch.any(zero_mask)`), and the device embedding is .view()-ed to the fixed constructor image_shape; documented output '[batch_size, num_devices, channels, height, width]'")
@@ -521,7 +533,7 @@ def stage_catalog(mods=None):
                               "mag,polar+noise,avg_noise_power=0.05": lambda: A.NonlinearChannel(_nl_mag, complex_mode="polar", add_noise=True, avg_noise_power=0.05)}, sh),
         "TotalPowerConstraint": (Pm.TotalPowerConstraint, PW + "TotalPowerConstraint.forward; " + PW + "TotalPowerConstraint._apply_constraint_to_single_item", {"P=1.5": lambda: Pm.TotalPowerConstraint(1.5)}, sh),
         "AveragePowerConstraint": (Pm.AveragePowerConstraint, PW + "AveragePowerConstraint.forward; " + PW + "AveragePowerConstraint._apply_constraint_to_single_item", {"P=0.8": lambda: Pm.AveragePowerConstraint(0.8)}, sh),
-        "PAPRConstraint": (Pm.PAPRConstraint, PW + "PAPRConstraint.forward; " + PW + "PAPRConstraint._apply_constraint_to_single_item", {"max_papr=6 (inactive)": lambda: Pm.PAPRConstraint(6.0), "max_papr=2 (clipping)": lambda: Pm.PAPRConstraint(2.0), "max_papr=3 (default)": lambda: Pm.PAPRConstraint()}, [(2, 3, 2), (1, 6), (3, 8)]),
+        "PAPRConstraint": (Pm.PAPRConstraint, PW + "PAPRConstraint.forward; " + PW + "PAPRConstraint._apply_constraint_to_single_item", {"max_papr=50 (never clips)": lambda: Pm.PAPRConstraint(50.0), "max_papr=2 (clipping)": lambda: Pm.PAPRConstraint(2.0), "max_papr=3 (default)": lambda: Pm.PAPRConstraint()}, [(2, 3, 2), (1, 6), (3, 8)]),
         "PerAntennaPowerConstraint": (An.PerAntennaPowerConstraint, "kaira/constraints/antenna.py:PerAntennaPowerConstraint.forward", {"uniform=0.7": lambda: An.PerAntennaPowerConstraint(uniform_power=0.7), "budget=[0.5,1,1.5]": lambda: An.PerAntennaPowerConstraint(power_budget=torch.tensor([0.5, 1.0, 1.5]))}, [(2, 3, 2), (2, 3, 2, 2)]),
     }
 
@@ -550,7 +562,7 @@ def nodetach_results(spec, cfg, cls, variants, shapes, extra_modules=()):
         findings, ta = E3.taint_check_forward(cls, extra_modules=extra_modules)
     except Exception as e:
         return [ObResult(ob=f"{spec.id}/no_detach", engine="E3", backend="ast-taint", kind="proof", verdict="error", detail=E3.fmt_exc(e), **base)]
-    followed = f"analysed: {', '.join(ta.followed)}" + (f"; not followed: {sorted(set(ta.not_followed))}" if ta.not_followed else "")
+    followed = f"analysed: {', '.join(ta.followed)}" + (f"; not followed: {sorted(set(ta.not_followed))}" if ta.not_followed else "") + (f"; notes: {ta.notes}" if ta.notes else "")
     if not findings:
         r = ObResult(ob=f"{spec.id}/no_detach", engine="E3", backend="ast-taint", kind="proof", verdict="discharged", **base)
         r.paths = len(ta.followed)
@@ -684,7 +696,7 @@ def _e2e_parts(model, constraint, channel):
 
         enc, dec = DeepJSCCFeedbackEncoder(256), DeepJSCCFeedbackDecoder(3)  # decoder input width is hard-coded to 256
     else:
-        P = build_pair(model, {})
+        P = build_pair(model, {"c": 8, "N": 16, "M": 8})  # M=4 leaves ResidualUnits with 2 hidden channels: dead-ReLU zero gradients unrelated to constraint/channel
         enc, dec = P.enc, P.dec
         if model == "tung2022_q2":
             kw = {"csi": True}
@@ -707,7 +719,7 @@ def e2e_grad(spec, cfg, tier, seed):
     batches = [int(s) for s in bt.split("=")[1].split(",")]
     t0 = time.time()
     r = ObResult(ob=f"{spec.id}/encoder_grads", engine="E3", backend="native", kind="bounded", **_base(spec, cfg))
-    bad, n, nparams = None, 0, 0
+    bad, n, nparams, excused, ever_nonzero = None, 0, 0, 0, set()
     for s in sizes:
         for b in batches:
             torch.manual_seed(1000 + n)
@@ -716,13 +728,22 @@ def e2e_grad(spec, cfg, tier, seed):
                 net.train()
                 x = torch.rand(b, 3, s, s)
                 kwargs = {"csi": torch.full((b, 1), 10.0)} if kw.get("csi") else {}
+                # baseline: the bare autoencoder decoder(encoder(x)) with the same weights and input; parameters whose gradient is
+                # identically zero there (dead ReLU units at reduced width / 1x1 latents) are not attributed to constraint+channel
+                y0 = net.decoder(net.encoder(x, **kwargs), **kwargs)
+                torch.nn.functional.mse_loss(y0, x).backward()
+                zero0 = {nm for nm, p in enc.named_parameters() if p.grad is not None and float(p.grad.abs().max()) == 0.0}
+                net.zero_grad(set_to_none=True)
                 y = net(x, **kwargs)
                 if tuple(y.shape) != tuple(x.shape):
                     problems = [f"output shape {tuple(y.shape)} != input shape {tuple(x.shape)}"]
                 else:
                     loss = torch.nn.functional.mse_loss(y, x)
                     loss.backward()
-                    problems = E3.grad_report(enc, loss)
+                    rep = E3.grad_report(enc, loss)
+                    problems = [q for q in rep if not (q.endswith("identically zero") and q.split(":")[0] in zero0)]
+                    excused += len(rep) - len(problems)
+                    ever_nonzero |= {nm for nm, p in enc.named_parameters() if p.grad is not None and float(p.grad.abs().max()) > 0.0}
                     if not bool(torch.isfinite(loss)):
                         problems.insert(0, f"loss = {float(loss)}")
                 nparams = sum(1 for _ in enc.parameters())
@@ -731,9 +752,11 @@ def e2e_grad(spec, cfg, tier, seed):
             n += 1
             if problems and bad is None:
                 bad = {"image_size": s, "batch": b, "torch_seed": 1000 + n - 1, "n_problems": len(problems), "problems": problems[:5]}
+    if bad is None and nparams and len(ever_nonzero) < nparams:
+        bad = {"problems": [f"{nparams - len(ever_nonzero)} encoder parameter tensors never receive a non-zero gradient on the whole grid"]}
     r.paths = n
     r.verdict, r.witness, r.replay_confirmed = ("discharged" if bad is None else "refuted"), bad, (True if bad else None)
-    r.detail = (f"bounded: {n} (size,batch) runs of the real DeepJSCCModel; loss=mse(decoder(channel(constraint(encoder(x)))), x); loss.backward(): all {nparams} encoder parameter tensors get finite, non-zero gradients"
+    r.detail = (f"bounded: {n} (size,batch) runs of the real DeepJSCCModel; loss=mse(decoder(channel(constraint(encoder(x)))), x); loss.backward(): every one of the {nparams} encoder parameter tensors gets a finite gradient in every run and a non-zero one on the grid; {excused} (run, parameter) zero gradients are also zero for the bare autoencoder decoder(encoder(x)) with the same weights (dead units at reduced width) and are not attributed to constraint+channel"
                 if bad is None else f"encoder parameters without a usable gradient through constraint+channel+decoder: {bad}")
     r.wall_s = round(time.time() - t0, 3)
     return [r]
